@@ -31,13 +31,16 @@ func (s *MemoryStore) VerifSnapshot() []Envelope {
 	return out
 }
 
-func (s *MemoryStore) VerifLeaseIndex() map[string]string {
+// VerifLeaseIndex returns the lease ids the store's lease index currently holds (keys only, so that the
+// shim does not depend on how the index stores its values).
+func (s *MemoryStore) VerifLeaseIndex() []string {
 	s.mu.Lock()
 	defer s.mu.Unlock()
-	out := make(map[string]string, len(s.leases))
-	for k, v := range s.leases {
-		out[k] = v
+	out := make([]string, 0, len(s.leases))
+	for k := range s.leases {
+		out = append(out, k)
 	}
+	sort.Strings(out)
 	return out
 }
 
